@@ -246,6 +246,25 @@ def job_session(cfg, ops):
     return {"split": bool(opt.directory_split), "obs": out}
 
 
+def job_session_owners(segments):
+    """One process, several *owners* of the same cache directory: `segments` is a list of
+    {"cfg", "ops", "owner"}; segments with the same owner id are served by the same optimizer object, which
+    stays alive (with whatever it remembers) while other owners work on the directory in between."""
+    import warnings
+    warnings.simplefilter("ignore")
+    Script.searches = 0
+    owners = {}
+    out = []
+    for seg in segments:
+        k = seg["owner"]
+        if k not in owners:
+            owners[k] = make_optimizer(seg["cfg"])
+        opt = owners[k]
+        # the policy of a resumed owner may not change (it is the same object)
+        out.append({"split": bool(opt.directory_split), "obs": [observe_op(opt, seg["cfg"], op) for op in seg["ops"]]})
+    return out
+
+
 # ---------------------------------------------------------------------------------------------
 # crash injection / system-call observation (child process only)
 
@@ -490,7 +509,7 @@ def snapshot(root):
 # ---------------------------------------------------------------------------------------------
 # child processes
 
-JOBS = {"session": job_session, "write": job_write}
+JOBS = {"session": job_session, "write": job_write, "session_owners": job_session_owners}
 
 
 def in_fork(job, *args):
